@@ -12,6 +12,8 @@ package aggoracle
 //@ ghost var gerInjected map[Hash]bool
 //@ ghost var lastInjected Hash
 //@ ghost var injectCalls int
+// infoLookupsOK counts the lookups the syncer answered (a lookup for a block it has not processed yet is refused)
+//@ ghost var infoLookupsOK int
 
 //@ interface github.com/ethereum/go-ethereum.ChainReader.HeaderByNumber (self, ctx, number)
 //@   modifies sampledFinal, lastSampled
@@ -19,8 +21,9 @@ package aggoracle
 //@   ensures result1 == nil ==> result0 != nil && result0.Number != nil && 0 <= bigval(result0.Number) && bigval(result0.Number) < 18446744073709551616 && lastSampled == bigval(result0.Number) && sampledFinal == upd(old(sampledFinal), bigval(result0.Number), true)
 
 //@ interface github.com/agglayer/aggkit/aggoracle.L1InfoTreer.GetLatestInfoUntilBlock (self, ctx, blockNum)
-//@   modifies nothing
-//@   ensures result1 != nil ==> result0 == nil
+//@   modifies infoLookupsOK
+//@   ensures result1 != nil ==> result0 == nil && infoLookupsOK == old(infoLookupsOK)
+//@   ensures result1 == nil ==> infoLookupsOK == old(infoLookupsOK) + 1
 //@   ensures result1 == nil ==> result0 != nil && result0.BlockNumber <= blockNum && result0.GlobalExitRoot == latestGerUntil(blockNum)
 
 //@ interface github.com/agglayer/aggkit/aggoracle.ChainSender.IsGERInjected (self, ger)
@@ -36,19 +39,24 @@ package aggoracle
 //@   props C15
 //@   requires a != nil && a.l1Client != nil && a.l1Info != nil
 //@   requires targetBlockNum != 0 ==> sampledFinal[targetBlockNum]
-//@   modifies sampledFinal, lastSampled
+//@   modifies sampledFinal, lastSampled, infoLookupsOK
+//@   ensures[answered-lookups-counted] (result2 == nil ==> infoLookupsOK == old(infoLookupsOK) + 1) && (result2 != nil ==> infoLookupsOK == old(infoLookupsOK))
 //@   ensures[root-at-or-below-a-finalized-block] result2 == nil ==> result0 == 0 && result1 == latestGerUntil(ite(targetBlockNum != 0, targetBlockNum, lastSampled)) && sampledFinal[ite(targetBlockNum != 0, targetBlockNum, lastSampled)]
 //@   ensures[samples-only-when-no-block-is-pending] targetBlockNum != 0 ==> sampledFinal == old(sampledFinal) && lastSampled == old(lastSampled)
 //@   ensures[retry-keeps-a-finalized-block] (result2 != nil && result0 != 0) ==> sampledFinal[result0]
 //@   ensures[sampled-blocks-stay-sampled] forall(b, int, old(sampledFinal)[b] ==> sampledFinal[b])
 
+// progress (the per-tick part of "while newer finalized roots keep appearing it keeps injecting them"): a block is
+// kept for the next tick only while the syncer has not answered for it; once a lookup was answered - whatever happens
+// next in the tick: root already present, injection, sender error - the next tick samples the finality afresh
 //@ func (a *AggOracle) processLatestGER
 //@   props C15
 //@   requires a != nil && a.l1Client != nil && a.l1Info != nil && a.chainSender != nil && a.logger != nil && blockNumToFetch != nil
 //@   requires *blockNumToFetch != 0 ==> sampledFinal[*blockNumToFetch]
-//@   modifies *blockNumToFetch, sampledFinal, lastSampled, gerInjected, lastInjected, injectCalls
+//@   modifies *blockNumToFetch, sampledFinal, lastSampled, gerInjected, lastInjected, injectCalls, infoLookupsOK
 //@   ensures[at-most-one-injection] injectCalls == old(injectCalls) || injectCalls == old(injectCalls) + 1
 //@   ensures[injects-only-a-finalized-current-root] injectCalls == old(injectCalls) + 1 ==> lastInjected == latestGerUntil(ite(old(*blockNumToFetch) != 0, old(*blockNumToFetch), lastSampled)) && sampledFinal[ite(old(*blockNumToFetch) != 0, old(*blockNumToFetch), lastSampled)]
 //@   ensures[never-injects-a-present-root] injectCalls == old(injectCalls) + 1 ==> !old(gerInjected)[lastInjected]
 //@   ensures[missing-root-is-injected-or-an-error] (result == nil && injectCalls == old(injectCalls)) ==> old(gerInjected)[latestGerUntil(ite(old(*blockNumToFetch) != 0, old(*blockNumToFetch), lastSampled))]
 //@   ensures[pending-block-stays-finalized] *blockNumToFetch != 0 ==> sampledFinal[*blockNumToFetch]
+//@   ensures[block-retained-only-while-the-syncer-lags] *blockNumToFetch != 0 ==> infoLookupsOK == old(infoLookupsOK)
